@@ -24,6 +24,9 @@ func sessionInvariants(st *app.StateSnap, ca *app.CacheSnap) (string, string) {
 	if st == nil || ca == nil {
 		return "", ""
 	}
+	if need := (int(st.BitSize) + 7) / 8; st.BitSize < 8 || len(st.Flags) != need {
+		return "flag-bytes!=flag-bits", fmt.Sprintf("%d flag bytes for a flag field of %d bits", len(st.Flags), st.BitSize)
+	}
 	if len(ca.Frames) != len(st.ExecPath)+1 {
 		return "cache-levels!=stack+1", fmt.Sprintf("cache has %d scopes, navigation stack %v has %d levels", len(ca.Frames), st.ExecPath, len(st.ExecPath))
 	}
@@ -281,6 +284,75 @@ func walkC08(c *vk.Ctx, r *vk.RNG, a *app.App, cfg app.Config, appName, key stri
 	c.Max("max_stack_depth_in_walk", int64(maxDepth))
 }
 
+// c08ManySessions: a long-running server - one flushing persister object serves the requests of hundreds of
+// sessions that come and go (each starts, makes a few requests, some with hostile input); no request may panic,
+// every stored session keeps the structural invariants, and a session started late behaves like the first one.
+func c08ManySessions(c *vk.Ctx) {
+	if !c.Mine(3) || !c.Want("many-sessions") {
+		return
+	}
+	c.Begin("many-sessions")
+	r := c.RNG("many-sessions")
+	p := c08Profile(r)
+	p.First = false
+	a := app.Generate(r, p)
+	cfg := genConfig(r, a, "s0")
+	cfg.FlagCount = a.FlagCount
+	b, err := app.NewBackend("mem")
+	if err != nil {
+		c.Inconclusive(err.Error())
+		return
+	}
+	defer b.Cleanup()
+	sp := &app.SharedPersister{Mode: "flush"}
+	defer sp.Close()
+	alpha := c08Alphabet(a)
+	n := c.N(320, 2000)
+	var firstOut string
+	for i := 0; i < n; i++ {
+		cf := cfg
+		cf.SessionId = fmt.Sprintf("session-%04d", i)
+		pr := app.NewPerRequest(a, cf, b)
+		pr.Shared = sp
+		ins := []string{"", vk.Pick(r, alpha)}
+		if r.Chance(1, 4) {
+			ins = append(ins, vk.Pick(r, alpha))
+		}
+		for k, in := range ins {
+			o := pr.Request([]byte(in))
+			c.EvalN(1, 1)
+			c.Count("many_sessions_requests", 1)
+			csd := map[string]interface{}{"app": a.Describe(), "config": cf, "session_number": i, "inputs": printableHist(ins[:k+1])}
+			if o.Panic != "" {
+				c.Violate("many-sessions:"+o.PanicSig, fmt.Sprintf("session %d of one flushing persister, input %s: panic %s", i, printable(in), o.Panic), "many-sessions", csd)
+				return
+			}
+			if o.StoredErr == "" {
+				if sig, msg := sessionInvariants(o.StoredState, o.StoredCache); sig != "" {
+					c.Violate("many-sessions:invariant:"+sig, fmt.Sprintf("session %d of one flushing persister after input %s: %s", i, printable(in), msg), "many-sessions", csd)
+					return
+				}
+				if o.StoredState != nil && o.StoredState.BitSize != a.FlagCount+8 {
+					c.Violate("many-sessions:flag-field-size-drifts", fmt.Sprintf("session %d of one flushing persister is stored with a flag field of %d bits, the application has %d flags (+8)", i, o.StoredState.BitSize, a.FlagCount), "many-sessions", csd)
+					return
+				}
+			}
+			if k == 0 {
+				if i == 0 {
+					firstOut = o.Out
+				} else if o.Out != firstOut && o.ExecErr == "" {
+					c.Violate("many-sessions:new-session-differs", fmt.Sprintf("the first request of session %d answers %q, that of the first session %q", i, o.Out, firstOut), "many-sessions", csd)
+					return
+				}
+			}
+			if !o.Cont || o.ExecErr != "" {
+				break
+			}
+		}
+	}
+	c.Count("many_sessions", int64(n))
+}
+
 func C08() *vk.Check {
 	return &vk.Check{
 		ID:    "C08",
@@ -308,6 +380,7 @@ func c08Profile(r *vk.RNG) app.Profile {
 }
 
 func runC08(c *vk.Ctx) {
+	c08ManySessions(c)
 	depth := c.N(4, 6)
 	capReq := c.N(8000, 60000)
 	idx := 0
